@@ -343,8 +343,18 @@ def sshclient(sim, secret):
     tmp = tempfile.mkdtemp(prefix="verif-c17-")
     sim.cleanup.append(lambda: shutil.rmtree(tmp, ignore_errors=True))
     path = os.path.join(tmp, "known_hosts")
+    # a hashed line damaged by hand editing (salt not base64 / not 20 bytes) in front of everything else.  Either
+    # the lookup fails as a whole (nothing is sent) or the line is skipped and the other entries decide as usual;
+    # what must not happen is that the entries behind it are ignored and a policy decides for a known host
+    damaged = sim.choose(5) == 0
+    if damaged:
+        warmup = False      # the earlier connection would fail on the same line
     with open(path, "w") as f:
         f.write("# generated\n")
+        if damaged:
+            bad = ("|1|not*base64*salt|qe1qj0lqGqnb6Bfb7q2JvnGnzwk=", "|1|c2hvcnQ=|qe1qj0lqGqnb6Bfb7q2JvnGnzwk=")[sim.choose(2)]
+            f.write("%s %s %s\n" % (bad, ssh.key(other_same).get_name(), ssh.key(other_same).get_base64()))
+            sim.fault("damaged_hashed_line")
         for n, k in entries:
             hn = HostKeys.hash_host(n) if hashed else n
             f.write("%s %s %s\n" % (hn, k.get_name(), k.get_base64()))
@@ -370,10 +380,19 @@ def sshclient(sim, secret):
     ev = Event()
     ts.start_server(event=ev, server=server)
     c = SSHClient()
-    if system_file:
-        c.load_system_host_keys(path)
-    else:
-        c.load_host_keys(path)
+    try:
+        if system_file:
+            c.load_system_host_keys(path)
+        else:
+            c.load_host_keys(path)
+    except Exception:
+        if not damaged:
+            raise
+        # the damaged line makes loading the file fail: no connection is attempted, nothing is sent
+        sim.probe("damaged_file_refused_at_load")
+        ts.close()
+        return {"sample": {"sub": "C", "known_hosts": shape, "damaged_hashed_line_first": True, "load": "raised"},
+                "nontrivial": True, "case_key": "C|damaged|load-raised|" + shape, "counts": ["C:" + shape]}
     c.set_missing_host_key_policy(POLICIES[polname][0]())
     if warmup:
         # an earlier, legitimate connection of the SAME client object to a known host that shows the
@@ -406,6 +425,17 @@ def sshclient(sim, secret):
     except Exception as e:
         err = e
     ssh.quiesce(sim, [link], (), settle=0.2, limit=20)
+    desc["damaged_hashed_line_first"] = damaged
+    if damaged and accept and err is not None and (c.get_transport() is None or not c.get_transport().is_authenticated()):
+        # the lookup failed as a whole: allowed, as long as nothing was sent
+        judge(sim, tap, server, False, desc, secret, "C:%s:damaged-file" % shape)
+        sim.probe("damaged_file_refused")
+        try:
+            c.close()
+        except Exception:
+            pass
+        ts.close()
+        return {"sample": desc, "nontrivial": True, "case_key": repr(sorted(desc.items())), "counts": ["C:" + shape]}
     judge(sim, tap, server, accept, desc, secret, "C:%s:%s" % (shape, decided_by))
     if not accept and err is None:
         raise Violation(("C17", "connect-did-not-raise", "C", shape, polname), "SSHClient.connect returned normally for a server that had to be rejected", desc)
